@@ -37,8 +37,8 @@ impl Family for C17Family {
 
     fn total(&self, tier: Tier) -> u64 {
         match tier {
-            Tier::Quick => 4_000,
-            Tier::Thorough => 300_000,
+            Tier::Quick => 40_000,
+            Tier::Thorough => 3_000_000,
         }
     }
 
